@@ -80,7 +80,7 @@ def plan(tier: str, seed: int) -> Plan:
         chosen = chosen + (rest if thorough else rest[:1])
         for template, spine in chosen:
             obls.append(structure_obligation(tokens, template))
-            conds.append(Condition(f"meaning:{ci}:{template}", "meaning", H, "meaning", {"tokens": tokens, "template": template, "spine": spine}, T,
+            conds.append(Condition(f"meaning:{ci}:{template}", "meaning", H, "meaning", {"tokens": tokens, "template": template, "spine": spine, "maxn": 1 if template.count("?") > 1 else 2}, T * (2 if template.count("?") > 1 else 1),
                                    required=False,
                                    bounds=f"token assignment {tokens}; spine {spine} with two null|bool|int leaves, two int leaves, symbolic length/presence; "
                                           "filter context with a symbolic int"))
